@@ -197,7 +197,7 @@ Proof.
       destruct core0; cbn in P1; try contradiction;
         try (by_tid TCore; eexists; reflexivity).
       - (* in the select *)
-        destruct prod0 as [| |b|]; cbn in P3; try contradiction.
+        destruct prod0 as [| |b| |]; cbn in P3; try contradiction.
         + (* the producer is at its own select *)
           destruct (c_kind c) eqn:K.
           all: try (destruct abort0;
@@ -206,6 +206,7 @@ Proof.
                     | by_tid (TProd PAbort); rewrite K; eexists; reflexivity ]).
           by_tid (TProd PTick); rewrite K; eexists; reflexivity.
         + by_tid TCore. destruct b; eexists; reflexivity.
+        + by_tid (TProd PAbort). eexists; reflexivity.
         + destruct (c_kind c) eqn:K; try (destruct P3 as (P3 & _); subst nb0; by_tid TCore; eexists; reflexivity).
           destruct P3 as (_ & []).
       - destruct P1 as (P1 & _). lia. }
@@ -219,7 +220,7 @@ Proof.
   destruct core0; cbn in P1; try contradiction;
     try (left; by_tid TCore; subst; eexists; reflexivity).
   - (* in the select: as above *)
-    left. destruct prod0 as [| |b|]; cbn in P3; try contradiction.
+    left. destruct prod0 as [| |b| |]; cbn in P3; try contradiction.
     + destruct (c_kind c) eqn:K.
       all: try (destruct abort0;
                 [ by_tid (TProd PTick); rewrite K; eexists; reflexivity
@@ -227,6 +228,7 @@ Proof.
                 | by_tid (TProd PAbort); rewrite K; eexists; reflexivity ]).
       by_tid (TProd PTick); rewrite K; eexists; reflexivity.
     + by_tid TCore. subst; destruct b; eexists; reflexivity.
+    + by_tid (TProd PAbort). eexists; reflexivity.
     + destruct (c_kind c) eqn:K; try (destruct P3 as (P3 & _); subst; by_tid TCore; eexists; reflexivity).
       destruct P3 as (_ & []).
   - destruct P1 as (_ & _ & P & _). subst. right; reflexivity.
